@@ -147,6 +147,19 @@ Theorem C08_add_field_rejects_overlap :
     add_field st fv i len (Some s) tags = (st, Some E_VALUE).
 Proof. exact add_field_rejects_overlap. Qed.
 
+(* An explicit definition that is accepted is honoured: in every later state of the history the field
+   still has the start position (and the length, when one was given) of its definition -- assign_fields
+   never relocates it; when the explicit range collides with a field that can be present together with it
+   the layout is refused (C08_assign_no_overlap / C08_no_overlap_at_any_time leave no other outcome). *)
+Theorem C08_explicit_start_kept :
+  forall st fv i len p tags st1 st2,
+    reachable st -> add_field st fv i len (Some p) tags = (st1, None) -> reaches st1 st2 ->
+    let fid := length (s_store st) in
+    f_start (sget (s_store st2) fid) = Some p /\
+    (forall q l, frange (s_store st2) fid = Some (q, l) -> q = p) /\
+    (forall l, len = Some l -> f_len (sget (s_store st2) fid) = Some l).
+Proof. exact explicit_start_kept. Qed.
+
 Theorem C08_add_field_rejects_length :
   forall st fv i l start tags, l <= 0 -> add_field st fv i (Some l) start tags = (st, Some E_VALUE).
 Proof. exact add_field_rejects_length. Qed.
